@@ -48,7 +48,7 @@ impl Engine for Composite {
     fn budget(&self, tier: Tier) -> (u32, u32) {
         match tier {
             Tier::Quick => (64, 10),
-            Tier::Thorough => (128, 24),
+            Tier::Thorough => (128, 16),
         }
     }
     fn strategy(&self, tier: Tier) -> BoxedStrategy<CompCase> {
